@@ -299,6 +299,10 @@ def install(intr_cls):
                     if o2 is None or o2[0] == "continue":
                         for (label, cl) in spec.invariant(L, y, vis2):
                             eng.loop_goal(f"{name}/preservation:{label}", y, cl)
+                        # per-path (protocol) obligations of the function under verification also hold on the paths
+                        # that end here
+                        for hk in getattr(eng, "iteration_hooks", ()):
+                            hk(y)
                         # the path is closed by the invariant: nothing continues from here
                     elif o2[0] == "break":
                         outs.append((y, None))
